@@ -3,12 +3,14 @@
 tests with /root/.vp/BASELINE.json.  Exit 0 iff every stable-pass test still passes."""
 import json, os, subprocess, sys
 import xml.etree.ElementTree as ET
+# optional argument: another checkout of the repository (a scratch worktree) instead of /repo
+ROOT = sys.argv[1] if len(sys.argv) > 1 else "/repo"
 base = json.load(open("/root/.vp/BASELINE.json"))
 want = set(base["stable_pass"])
-junit = "/repo/target/nextest/pb/junit.xml"
+junit = ROOT + "/target/nextest/pb/junit.xml"
 if os.path.exists(junit):
     os.remove(junit)
-cmd = ("cd /repo && cargo nextest run --workspace --no-fail-fast --tool-config-file pb:/w/lib/nextest.toml "
+cmd = ("cd " + ROOT + " && cargo nextest run --workspace --no-fail-fast --tool-config-file pb:/w/lib/nextest.toml "
        "--profile pb --test-threads 8 --offline")
 p = subprocess.run(cmd, shell=True, stdout=subprocess.PIPE, stderr=subprocess.STDOUT, text=True)
 passed, failed = set(), set()
